@@ -281,16 +281,19 @@ class SqwFile:
     descriptors: list = field(default_factory=list)
     blocks: dict = field(default_factory=dict)   # name -> Block (first of each name)
     block_list: list = field(default_factory=list)
+    base: int = 0                                # offset of the file header in the buffer
 
     def names(self):
         return [d.name for d in self.descriptors]
 
 
-def decode_header(buf, bo: str) -> tuple[dict, int]:
-    cur = Cursor(buf, 0, len(buf), bo)
+def decode_header(buf, bo: str, base: int = 0) -> tuple[dict, int]:
+    """File header at offset ``base`` of ``buf`` (a stream that was written from position
+    ``base`` on: positions in the allocation table are stream offsets)."""
+    cur = Cursor(buf, base, len(buf), bo)
     n = cur.u32()
     if n > 4096:
-        raise DecodeError(f'program name length {n} is not plausible', 0)
+        raise DecodeError(f'program name length {n} is not plausible', base)
     name = cur.take(n)
     version = cur.f64()
     sqw_type = cur.u32()
@@ -384,12 +387,14 @@ def decode_block(buf, d: Descriptor, bo: str, char_unit: str = 'byte', alt=None)
     return b
 
 
-def decode_file(buf, bo: str) -> SqwFile:
-    """Header, block allocation table and every block, in byte order ``bo``."""
+def decode_file(buf, bo: str, base: int = 0) -> SqwFile:
+    """Header, block allocation table and every block, in byte order ``bo``.  ``base``: offset
+    of the file header in ``buf`` (0 for a file; the position a stream was written from)."""
     buf = bytes(buf)
     f = SqwFile(length=len(buf), byteorder=bo)
+    f.base = base
     try:
-        f.header, f.header_end = decode_header(buf, bo)
+        f.header, f.header_end = decode_header(buf, bo, base)
     except DecodeError as e:
         f.header_error = str(e)
         return f
